@@ -633,6 +633,96 @@ def part_other_writers(res, rng, n):
         res.count("other_writer_bundles")
 
 
+def part_inside_metamodule(res, rng, n):
+    """The bundle and its target live in the project of an API-built MetaModule that EXPOSES the driven controller as one of its
+    user-defined controllers (the delivered value is mirrored up to the MetaModule): the target still receives values in its
+    range, monotone in the input, and nothing raises."""
+    import rv.api as api
+    from rv.modules import MODULE_CLASSES
+    from rv.modules.multictl import MultiCtl
+    sp = spec.load()
+    ranged = [r for r in _ranged_targets() if r[2] in ("range", "no_offset") and r[0] != "MetaModule"]
+    for k in range(n):
+        T, cname, ckind, lo, hi = rng.choice([r for r in ranged if r[3] != 0] if k % 2 else ranged)
+        cls = MODULE_CLASSES[sp[T].mtype]
+        mm = api.m.MetaModule()
+        inner = mm.project
+        target = inner.new_module(cls)
+        try:
+            bundle = MultiCtl.macro(inner, (target, cname))
+        except Exception:
+            res.count("inside_metamodule_macro_refused")
+            continue
+        reverse = rng.random() < 0.4
+        if reverse:
+            m0 = bundle.mappings.values[0]
+            m0.min, m0.max = m0.max, m0.min
+        mm.user_defined_controllers = 1
+        mm.mappings.values[0] = mm.Mapping((target.index, list(type(target).controllers).index(cname)))
+        mm.update_user_defined_controllers()
+        case = {"part": "inside-metamodule", "target": [T, cname, lo, hi], "reversed": reverse}
+        res.case(("inside-metamodule", T, cname, reverse))
+        res.count("bundles_inside_a_metamodule")
+        prev = None
+        for v in list(range(0, 32769, 257)) + [32768]:
+            res.evaluations += 1
+            try:
+                bundle.value = v
+            except Exception as e:
+                res.violation(f"C20:delivery-raises:{type(e).__name__}:inside-metamodule", f"value={v}: delivery to {T}.{cname} exposed by the enclosing MetaModule raised {e!r}", dict(case, input=v))
+                break
+            got = _val(getattr(target, cname))
+            if got < lo or got > hi:
+                res.violation(f"C20:out-of-range:{ckind}:inside-metamodule", f"value={v}: {T}.{cname} holds {got} outside [{lo},{hi}] ({case})", dict(case, input=v))
+                break
+            if prev is not None and ((not reverse and got < prev) or (reverse and got > prev)):
+                res.violation(f"C20:not-monotone:{ckind}:{'reversed' if reverse else 'normal'}:inside-metamodule", f"value={v}: {T}.{cname} received {got} after {prev} ({case})", dict(case, input=v))
+                break
+            prev = got
+
+
+def part_wide_windows(res, rng, n):
+    """Targets whose range is taken unscaled (MultiSynth.transpose ...) behind a window WIDER than their span, in a process that has
+    also seen loads fail: every send either is refused or leaves the target inside its range."""
+    import rv.api as api
+    from io import BytesIO
+    from rv.errors import ControllerValueError
+    from rv.modules import MODULE_CLASSES
+    from rv.modules.multictl import MultiCtl
+    sp = spec.load()
+    compact = [r for r in _ranged_targets() if r[2] == "compact"]
+    if not compact:
+        return
+    for bad in (b"SVOX\0\0\0\0BPM \2\0\0\0\x7d\0", b"SVOX\0\0\0\0VERS\x04\0\0\0\x01"):
+        try:
+            api.read_sunvox_file(BytesIO(bad))
+        except Exception:
+            res.count("failed_loads_before_wide_windows")
+    for k in range(n):
+        T, cname, ckind, lo, hi = rng.choice(compact)
+        cls = MODULE_CLASSES[sp[T].mtype]
+        p = workload.new_project()
+        m = p.new_module(cls)
+        top = rng.choice([32768, 1000, (hi - lo) * 2, (hi - lo) + 1])
+        mc = p.new_module(MultiCtl, mappings=[(0, top, cls.controllers[cname].number, 0, 0, 0, 0, 0)])
+        mc >> m
+        case = {"part": "wide-windows", "target": [T, cname, lo, hi], "window_top": top}
+        res.count("wide_window_bundles")
+        for v in sorted({0, 1, 2000, 16384, 32768, rng.randrange(32769), rng.randrange(32769)}):
+            res.evaluations += 1
+            try:
+                mc.value = v
+            except ControllerValueError:
+                res.count("wide_window_sends_refused")
+            except Exception as e:
+                res.violation(f"C20:delivery-raises:{type(e).__name__}:wide-window", f"value={v}: {e!r} ({case})", dict(case, input=v))
+                break
+            got = _val(getattr(m, cname))
+            if got < lo or got > hi:
+                res.violation(f"C20:out-of-range:{ckind}:wide-window", f"value={v} through a window 0..{top}: {T}.{cname} holds {got} outside [{lo},{hi}]", dict(case, input=v))
+                break
+
+
 # ------------------------------------------------------------------ (b2') loaded bundles whose links carry identical mappings
 def part_loaded_twins(res, rng, n):
     """Two (or more) targets of one type behind byte-identical mappings; the project is saved and loaded (or cloned); ONE mapping
@@ -814,6 +904,8 @@ def run_shard(spec_, res):
         part_nested(res, rng, spec_["tuples"] * 5)
         part_loaded_twins(res, rng, spec_["tuples"] * 6)
         part_other_writers(res, rng, spec_["tuples"] * 4)
+        part_inside_metamodule(res, rng, spec_["tuples"] * 3)
+        part_wide_windows(res, rng, spec_["tuples"] * 3)
     else:
         part_pure(res, rng, spec_["tuples"])
 
